@@ -117,6 +117,16 @@ func executeKeySet(t *testing.T, prop string, seed uint64, p *KeySetPlan) *core.
 			}
 		}
 	}
+	// ... or a client that spells the public name with a trailing dot (refused
+	// or not, it must leave the server's keys as they are)
+	var dotted *built
+	if !never && len(base.Target.PublicName) < 250 {
+		db := base
+		db.Mutations = []Mutation{{Kind: "outer-sni-other", S: base.Target.PublicName + "."}}
+		if d, derr := buildScript(core.Mix(seed, "dotted"), &db); derr == nil {
+			dotted = d
+		}
+	}
 	lists := permLists(len(pool))
 	if p.OnlyList != nil {
 		lists = [][]int{p.OnlyList}
@@ -174,6 +184,20 @@ func executeKeySet(t *testing.T, prop string, seed uint64, p *KeySetPlan) *core.
 					fail("key-list-modified", "NewConn modified the caller's key list", "after a connection to key %d of the pool", di)
 					continue
 				}
+			}
+		}
+		if li%4 == 2 && dotted != nil && slices.Contains(l, 0) {
+			pristine := echKeys(specs)
+			dsc := simnet.NewScript(dotted.outerRec)
+			dsc.NoEOF = true
+			if pk, m, s := core.Guard(func() { ech.NewConn(context.Background(), dsc, opts...) }); pk {
+				fail("panic", s+": "+normMsg(m), "NewConn (earlier connection with a trailing dot in the outer SNI)")
+				continue
+			}
+			res.Probe("earlier_connection_dotted_sni")
+			if !reflect.DeepEqual(ks, pristine) {
+				fail("key-list-modified", "NewConn modified the caller's key list", "after a connection whose outer SNI is the public name with a trailing dot")
+				continue
 			}
 		}
 		sc := simnet.NewScript(b.outerRec)
